@@ -107,7 +107,7 @@ func c12Hostile(nsub, maxPayload int) {
 	sym.Reach("hostile-done")
 }
 
-func C12Hostile()     { c12Hostile(1, 4) }
+func C12Hostile()     { c12Hostile(1, 8) }
 func C12HostileDeep() { c12Hostile(2, 12) }
 
 // C12Misaddressed: posts and calls to wrong object / service ids with arbitrary payloads.
